@@ -174,6 +174,16 @@ func buildItems(tr tiers, seed uint64) []item {
 			add(Data{Src: p.Src, Input: in, VarNames: p.VarNames, VarVals: p.VarVals, Mode: "A", Origin: p.Origin, ViaQuery: i%7 == 0 && len(p.VarNames) == 0})
 		}
 	}
+	mr := kernel.NewRand(kernel.Mix(seed, 7, 4))
+	for k := 0; k < tr.Gen/2 && len(corpus) > 0; k++ {
+		p := corpus[mr.Intn(len(corpus))]
+		if !workload.Deterministic(p.Src) || len(p.Inputs) == 0 {
+			continue
+		}
+		if m := workload.MutateProgram(mr, p.Src); workload.Deterministic(m) {
+			add(Data{Src: m, Input: p.Inputs[0], VarNames: p.VarNames, VarVals: p.VarVals, Mode: "A", Origin: "corpus-mutant"})
+		}
+	}
 	g := workload.NewGen(kernel.Mix(seed, 7, 2))
 	for i := 0; i < tr.Gen; i++ {
 		src, in := g.Program()
